@@ -4,7 +4,7 @@ set -e
 d=$(readlink -f "$1"); m=${2:-${d%.diff}.msg}
 cd /repo
 patch -p1 -F0 -s --dry-run < "$d" >/dev/null
-patch -p1 -F0 -s < "$d"
+patch -p1 -F0 -s --no-backup-if-mismatch < "$d"
 gofmt -l $(grep '^+++ ' "$d" | sed 's/^+++ b\///; s/\t.*//' | grep '\.go$') | grep . && { echo "gofmt complains"; exit 1; } || true
 first=$(head -1 "$m")
 case "$first" in fix:*) ;; *) first="fix: $first";; esac
